@@ -1025,7 +1025,7 @@ def c18_problems(case, eng) -> List[Tuple[str, str, str]]:
     if vals == {"A"}:
         groups: Dict[str, List[str]] = {}
         for k in forms:
-            groups.setdefault(json.dumps(norm_rows(eng[k]["rows"]), default=str), []).append(k)
+            groups.setdefault(json.dumps(sorted(norm_rows(eng[k]["rows"]), key=repr), default=str), []).append(k)
         if len(groups) == 1:
             return []
         desc = " | ".join("+".join(v) + " -> " + json.dumps(json.loads(g), default=str)[:160] for g, v in groups.items())
@@ -1045,7 +1045,7 @@ def c19_problems(case, eng, exp) -> List[Tuple[str, str, str]]:
         s = status(o)
         if exp["accept"]:
             if s == "A":
-                if norm_rows(o["rows"]) != norm_rows(exp["rows"]):
+                if sorted(norm_rows(o["rows"]), key=repr) != sorted(norm_rows(exp["rows"]), key=repr):
                     rel = "valid-input-loaded-as-another-value"
                 else:
                     continue
